@@ -43,7 +43,18 @@ def downgrade(disk, version, keep_id, seed):
         old_props = tuple(version) < (1, 1, 1)
         if old_props and "metadata" in hf:
             paths = []
-            hf["metadata"].visititems(lambda n, o: paths.append(o.name) if _is_prop_dataset(o) else None)
+
+            def collect(secgrp, base):
+                # ownership only: properties of this section, then its subsections (never through 'link')
+                if "properties" in secgrp:
+                    for pn, ds_ in secgrp["properties"].items():
+                        if _is_prop_dataset(ds_):
+                            paths.append("%s/properties/%s" % (base, pn))
+                if "sections" in secgrp:
+                    for sn, sg in secgrp["sections"].items():
+                        collect(sg, "%s/sections/%s" % (base, sn))
+            for sn, sg in hf["metadata"].items():
+                collect(sg, "/metadata/" + sn)
             for path in paths:
                 ds = hf[path]
                 vals = ds[...]
@@ -115,6 +126,11 @@ def _sec(s):
     d = {"id": K._attr(s, "id"), "name": K._attr(s, "name"), "type": K._attr(s, "type"),
          "definition": K._attr(s, "definition"), "repository": K._attr(s, "repository"),
          "reference": K._attr(s, "reference")}
+    try:
+        lk = s.link
+        d["link"] = None if lk is None else K._attr(lk, "id")
+    except Exception as e:  # noqa
+        d["link"] = K.Raises(e)
     props = {}
     try:
         for p in s.props:
@@ -162,7 +178,7 @@ def compare_old_new(run, old, new, site, what):
         run.violation("upgrade_content", site, what + ":blocks:" + K.diff_class(d), "%s: after=%s before=%s" % d)
 
     def rec(o, n, path):
-        for k in ("id", "name", "type", "definition", "repository", "reference"):
+        for k in ("id", "name", "type", "definition", "repository", "reference", "link"):
             if K.deep_diff(o[k], n[k]) is not None:
                 run.violation("upgrade_content", site, what + ":section." + k, "%s %r: %r -> %r" % (path, k, o[k], n[k]))
         if isinstance(o["props"], K.Raises) or isinstance(n["props"], K.Raises):
